@@ -56,6 +56,7 @@ PROBES = [
     docs.obj(id='p', method='fac1', params=[1]), docs.obj(id='p', method='fac2', params=[1]),
     [docs.obj(id='p', method='noargs'), docs.obj(method='ok', params=['n']), docs.obj(id='q', method='whoami')],
     docs.obj(id='p', method='kwonly', params={'a': 1}),
+    docs.obj(id='p', method='js_loose', params=['not-an-ip']), docs.obj(id='p', method='js_checked', params=['10.0.0.1']),
 ]
 
 
@@ -153,6 +154,14 @@ def build_leak_dispatcher(style, validator_name, is_async, refs):
             refs['sentinels'].append(weakref.ref(s))
             return a
         disp.add(m, 'm', context='ctx', positional=(style == 'positional-context'))
+
+    def bad(ctx, how='exc'):
+        s = Sentinel()
+        refs['sentinels'].append(weakref.ref(s))
+        if how == 'rpc':
+            raise pjrpc.exceptions.JsonRpcError(code=4242, message='app', data='d')
+        raise ValueError('Zq7_marker_leak')
+    disp.add(bad, 'bad', context='ctx')
     return disp, validator
 
 
@@ -166,6 +175,10 @@ def run_leak(ctx, style, validator_name, is_async, n):
     ctx.hit(f'leak:N={n}')
     texts = [json.dumps({'jsonrpc': '2.0', 'id': 1, 'method': 'm', 'params': p}) for p in ([], [1], {'a': 2}, {'zz': 1}, ['x', 'y'])]
     texts.append(json.dumps([{'jsonrpc': '2.0', 'id': 1, 'method': 'm'}, {'jsonrpc': '2.0', 'method': 'm', 'params': [3]}]))
+    texts.append(json.dumps({'jsonrpc': '2.0', 'id': 2, 'method': 'bad'}))                      # arbitrary exception
+    texts.append(json.dumps({'jsonrpc': '2.0', 'id': 3, 'method': 'bad', 'params': ['rpc']}))   # protocol error
+    texts.append(json.dumps({'jsonrpc': '2.0', 'method': 'bad'}))                               # failing notification
+    texts.append(json.dumps({'jsonrpc': '2.0', 'id': 4, 'method': 'nope'}))
 
     def one(i):
         c = world.Context(i)
@@ -391,7 +404,8 @@ def gen(ctx):
     k = 0
     # crafted short histories around shared-signature / context methods, then random ones
     crafted = []
-    ctx_reqs = [docs.obj(id=1, method='whoami'), docs.obj(id=1, method='ctxm'), docs.obj(id=1, method='ctxp'),
+    ctx_reqs = [docs.obj(id=1, method='js_checked', params=['10.0.0.1']), docs.obj(id=1, method='js_loose', params=['x']),
+                docs.obj(id=1, method='whoami'), docs.obj(id=1, method='ctxm'), docs.obj(id=1, method='ctxp'),
                 docs.obj(id=1, method='view.vm', params=['x']), docs.obj(method='whoami'), docs.obj(id=1, method='noargs')]
     for a in ctx_reqs:
         crafted.append([a])
